@@ -14,7 +14,7 @@ the model (`server` op with a schedule)."""
 import itertools
 
 from harness.runner import Report
-from harness import execlib, serverlib, frontends
+from harness import execlib, serverlib, frontends, framelib
 
 ASSUMPTIONS = ['event loops and sockets are replaced by in-process fakes that hand each chunk to the real handler in order; a schedule '
                'is a total order of chunk deliveries (the GIL / event loop serialises the handlers at this granularity)',
@@ -47,7 +47,7 @@ def gen_frames(rng, framer, units, n, ident_p=0.15):
             if framer == 'rtu' and 'raw' in r and len(r['raw']) != r.get('byte_count', r.get('write_byte_count')):
                 continue
             f = serverlib.frame_request(framer, r, uid, tid)
-        if framer == 'binary' and any(b in (0x7B, 0x7D) for b in f[1:-1]):
+        if framer == 'binary' and framelib.has_delim(f):
             continue
         frames.append(f)
     return frames
